@@ -8,6 +8,7 @@ CONSTANTS
   LoadLocks = TRUE
   SaveLocks = TRUE
   TruncFirst = FALSE
+  UnlinkLockWhenFinal = FALSE
   StatBeforeLock = FALSE
   FreshUpdates = FALSE
   Reread = TRUE
